@@ -26,6 +26,18 @@ CHECKS = {
             'do not overlap (C19); warning counters below INT_MAX; fewer than INT_MAX contacts. Not decided: physical consistency '
             'of the truncated constraint set; writes into arena blocks performed by other functions.',
             'contracts + typestate/ghost-state VCs over the clang AST; symbolic VC generation + z3 LIA'),
+    'C26': ('DESIGN.md section 4 / C26',
+            'Deductive proof of the state API of engine_support.c against a component table written from the documentation: '
+            'mj_stateSize == sum of selected sizes; mj_getState writes exactly [0,stateSize) with segment b == component b in bit '
+            'order; mj_setState loads the selected components and leaves all others untouched; mj_copyState == get;set; '
+            'mj_extractState layout/bounds/frame/error-iff; keyframe set/load; the get;set round trip as a client lemma over the '
+            'contracts. All 2^14 signatures and all model sizes are symbolic; the 14-step loops are unrolled with a cut-point '
+            'invariant per iteration, inner loops by inductive invariants.',
+            'Trusted: VC generator, clang, z3/cvc5, libc memcpy contract. Assumed: _resetData frame (body not verified), model '
+            'sizes in [0,2^24], component arrays distinct with documented lengths. Bounded stand-in (not counted as proved): '
+            'content clause of mj_extractState, exhaustive over all 4.78M sub-signature pairs on one model natively. Not decided: '
+            'mj_resetData == fresh mjData.',
+            'contracts + symbolic VC generation (cut-point invariants, quantified array facts), z3 LIA+arrays+quantifiers'),
 }
 
 NA = {
